@@ -130,7 +130,7 @@ def gen_T15():
     strs = _const_strs(opn)
     need('\\\\*$' in strs, 'open_registry: slashEnd regex changed')
     need('(?<!\\\\)((?:\\\\\\\\)*): ' in strs, 'open_registry: key/value split regex changed')
-    need(ast.unparse(module_assign(t, '_splitRe')) == "re.compile('(?<!\\\\\\\\)\\\\.')", '_splitRe changed')
+    need(ast.unparse(module_assign(t, '_splitRe')) == "re.compile('(?<!\\\\\\\\)((?:\\\\\\\\\\\\\\\\)*)\\\\.')", '_splitRe changed')
     need(ast.unparse(module_assign(t, 'ENCODING')) == "'string_escape' if minisix.PY2 else 'unicode_escape'", 'ENCODING changed')
     cl = find_def(t, 'close')
     need('%s: %s\n' in _const_strs(cl), 'close(): value line format changed')
@@ -162,5 +162,186 @@ def gen_T15():
     out += 'Definition TRUE_WORDS : list (list N) := %s.\n' % clist(cstr(w) for w in tups[0])
     out += 'Definition FALSE_WORDS : list (list N) := %s.\n' % clist(cstr(w) for w in tups[1])
     out += 'Definition PRINTABLE_RANGES : list (N * N) := %s.\n' % clist('(%d, %d)' % r for r in ranges)
+    progs = atomic_programs()
+    out += ('(* order of validation / side effects / store in X.set and X.setValue, inlined along the MRO *)\n'
+            'Inductive stm : Type :=\n| SSkip | SCheck | SError | SAssign\n| SSeq (a b : stm) | SIf (a b : stm) | STry (body handler : stm).\n')
+    out += 'Definition INVENTORY : list (list N) := %s.\n' % clist(cstr(q) for q, *_ in inv)
+    out += 'Definition ATOMIC_TABLE : list (list N * stm * stm) :=\n  %s.\n' % clist(
+        '\n   (%s, %s, %s)' % (cstr(q), stm_coq(a), stm_coq(b)) for q, a, b in progs)
     out += '(* class inventory (%d classes): %s *)\n' % (len(inv), ', '.join('%s:%s' % (q, k.split(':')[0]) for q, k, *_ in inv))
     return 'src/registry.py src/conf.py src/utils/str.py', out
+
+
+# ---------------------------------------------------------------------------------------------
+# reject-atomic: the order of validation / side effects / store in X.set and X.setValue
+#
+# For every class of the inventory the resolved (MRO) bodies of set() and setValue() are inlined
+# into a small statement language (emitted as the Coq type [stm]):
+#   SSkip    neither raises nor stores          SCheck   may raise (validation, conversion, any call)
+#   SError   self.error(...) / raise            SAssign  Value._setValue: self.value = v (+ unset children)
+#   SSeq a b | SIf a b | STry body handler
+# Fail-closed: a statement form the translator does not know raises Shape.  Calls trusted not to raise
+# although they follow the store are listed in NONRAISING (and in TRUSTED of harness/c15.py).
+NONRAISING = {'defaultHttpHeaders(None, None)'}     # conf.HttpRequestLanguage / HttpUserAgents: rebuilds a dict of headers
+MAXDEPTH = 12
+
+
+def _classes():
+    out = {}
+    for mod, path in (('registry', 'src/registry.py'), ('conf', 'src/conf.py')):
+        for node in tree(path).body:
+            if isinstance(node, ast.ClassDef):
+                out['%s.%s' % (mod, node.name)] = node
+    return out
+
+
+def _qual(mod, name, classes):
+    """qualified name of a base / class expression written inside module [mod]"""
+    if name.startswith('registry.'):
+        return name if name in classes else None
+    q = '%s.%s' % (mod, name)
+    return q if q in classes else None
+
+
+def _mro(q, classes, memo):
+    if q in memo:
+        return memo[q]
+    mod = q.split('.')[0]
+    bases = [_qual(mod, ast.unparse(b), classes) for b in classes[q].bases]
+    bases = [b for b in bases if b is not None]          # object / Exception / Group's `object`
+    seqs = [list(_mro(b, classes, memo)) for b in bases] + [list(bases)]
+    res = [q]
+    while any(seqs):
+        for s_ in seqs:
+            if s_ and not any(s_[0] in t[1:] for t in seqs):
+                h = s_[0]
+                break
+        else:
+            raise Shape('no consistent MRO for %s' % q)
+        res.append(h)
+        seqs = [[x for x in t if x != h] for t in seqs]
+    memo[q] = res
+    return res
+
+
+def _has_call(node):
+    return any(isinstance(n, ast.Call) for n in ast.walk(node))
+
+
+def _defines(cnode, meth):
+    for st in cnode.body:
+        if isinstance(st, ast.FunctionDef) and st.name == meth:
+            return st
+    return None
+
+
+def _seq(items):
+    items = [x for x in items if x != ('SSkip',)]
+    if not items:
+        return ('SSkip',)
+    r = items[-1]
+    for x in reversed(items[:-1]):
+        r = ('SSeq', x, r)
+    return r
+
+
+def _stores(p):
+    return p[0] == 'SAssign' or any(isinstance(x, tuple) and _stores(x) for x in p[1:])
+
+
+class _Inliner:
+    def __init__(self, q, classes, memo):
+        self.q, self.classes, self.mro = q, classes, _mro(q, classes, memo)
+
+    def method(self, start, meth, depth):
+        need(depth < MAXDEPTH, '%s: call depth exceeded while inlining %s' % (self.q, meth))
+        for i in range(start, len(self.mro)):
+            f = _defines(self.classes[self.mro[i]], meth)
+            if f is not None:
+                return self.block(f.body, i, depth + 1)
+        raise Shape('%s: no %s found from MRO position %d' % (self.q, meth, start))
+
+    def block(self, stmts, i, depth):
+        return _seq([self.stmt(st, i, depth) for st in stmts])
+
+    def call(self, c, i, depth):
+        """a Call expression evaluated for its effect"""
+        f = c.func
+        src = ast.unparse(c)
+        pre = [('SCheck',)] if any(_has_call(a) for a in list(c.args) + [k.value for k in c.keywords]) else []
+        if isinstance(f, ast.Attribute) and f.attr in ('set', 'setValue'):
+            v = f.value
+            vs = ast.unparse(v)
+            mod = self.mro[i].split('.')[0]
+            if vs == 'self':
+                start = 0
+            elif vs.startswith('super(') or vs in ('self.__parent',) or (vs.startswith('self._') and vs.endswith('__parent')):
+                start = i + 1
+            else:
+                tq = _qual(mod, vs, self.classes)
+                need(tq is not None and tq in self.mro, '%s: cannot resolve the receiver of %s' % (self.q, src))
+                need(len(c.args) >= 1 and ast.unparse(c.args[0]) == 'self', '%s: unbound call without self: %s' % (self.q, src))
+                start = self.mro.index(tq)
+            return _seq(pre + [self.method(start, f.attr, depth)])
+        if isinstance(f, ast.Attribute) and ast.unparse(f) == 'self._setValue':
+            return _seq(pre + [('SAssign',)])
+        if isinstance(f, ast.Attribute) and ast.unparse(f) == 'self.error':
+            return _seq(pre + [('SError',)])
+        if src in NONRAISING:
+            return ('SSkip',)
+        return ('SCheck',)
+
+    def stmt(self, st, i, depth):
+        if isinstance(st, ast.Expr):
+            if isinstance(st.value, ast.Constant):
+                return ('SSkip',)
+            if isinstance(st.value, ast.Call):
+                return self.call(st.value, i, depth)
+            return ('SCheck',) if _has_call(st.value) else ('SSkip',)
+        if isinstance(st, ast.Raise):
+            return ('SError',)
+        if isinstance(st, (ast.Assign, ast.AugAssign, ast.AnnAssign)):
+            v = st.value
+            if v is None or not _has_call(v):
+                return ('SSkip',)
+            if isinstance(v, ast.Call) and ast.unparse(v) in NONRAISING:
+                return ('SSkip',)
+            need(not (isinstance(v, ast.Call) and isinstance(v.func, ast.Attribute) and v.func.attr in ('set', 'setValue', '_setValue')),
+                 '%s: store call used as a value: %s' % (self.q, ast.unparse(st)))
+            return ('SCheck',)
+        if isinstance(st, ast.If):
+            return _seq([('SCheck',), ('SIf', self.block(st.body, i, depth), self.block(st.orelse, i, depth))])
+        if isinstance(st, ast.Try):
+            need(not st.finalbody, '%s: try/finally in set/setValue' % self.q)
+            hs = [self.block(h.body, i, depth) for h in st.handlers]
+            h = hs[-1]
+            for x in reversed(hs[:-1]):
+                h = ('SIf', x, h)
+            return _seq([('STry', self.block(st.body, i, depth), h), self.block(st.orelse, i, depth)])
+        if isinstance(st, (ast.For, ast.While)):
+            body = self.block(st.body + st.orelse, i, depth)
+            need(not _stores(body), '%s: a loop in set/setValue stores' % self.q)
+            return ('SCheck',)
+        if isinstance(st, (ast.FunctionDef, ast.Pass, ast.Import, ast.ImportFrom)):
+            return ('SSkip',)
+        raise Shape('%s: statement form not understood in set/setValue: %s' % (self.q, ast.unparse(st)[:80]))
+
+
+def atomic_programs(strict=True):
+    """[(qualified class name, set program, setValue program)] for every non-abstract inventory class"""
+    classes = _classes()
+    memo = {}
+    # Value._setValue must assign before it does anything else that matters (children, callbacks)
+    sv = _defines(classes['registry.Value'], '_setValue')
+    need(sv is not None, 'Value._setValue missing')
+    assigns = [j for j, st in enumerate(sv.body) if isinstance(st, ast.Assign) and ast.unparse(st.targets[0]) == 'self.value']
+    need(len(assigns) == 1, 'Value._setValue: expected exactly one assignment to self.value')
+    out = []
+    for q, kind, *_ in inventory(strict):
+        inl = _Inliner(q, classes, memo)
+        out.append((q, inl.method(0, 'set', 0), inl.method(0, 'setValue', 0)))
+    return out
+
+
+def stm_coq(p):
+    return p[0] if len(p) == 1 else '(%s %s)' % (p[0], ' '.join(stm_coq(x) for x in p[1:]))
